@@ -78,6 +78,7 @@ pub struct WalkStats {
     pub rv_unusable_quality: u64,
     pub rv_unusable_area: u64,
     pub rv_votes_below_min: u64,
+    pub rv_unusable_own_area: u64,
 }
 
 pub struct Walk {
@@ -192,6 +193,9 @@ impl<'a> Model<'a> {
             self.visual_tie_filter(opi, scene, e, dets);
             self.refvisual_check(op, opi, scene, e, dets, recs);
         }
+        let shares = self.own_shares(dets);
+        // a share within the margin of the collect threshold makes the gallery
+        // transition of that track unassertable: handled by marking it unknown below
         // lifecycle classification + model update
         for (i, (d, r)) in dets.iter().zip(recs.iter()).enumerate() {
             let known = self.tracks.get(&r.id).cloned();
@@ -227,10 +231,21 @@ impl<'a> Model<'a> {
                     t.pred_hist.push(r.pred.clone());
                     t.feat_hist.push(d.feature.clone());
                     let collectable = match &self.cfg.visual {
-                        Some(v) => d.feature.is_some() && d.b.area() >= v.min_area as f64 && d.quality.unwrap_or(1.0) >= v.q_collect,
+                        Some(v) => {
+                            let share_ok = match shares.get(i).cloned().flatten() {
+                                Some(sh) => sh >= v.own_collect as f64,
+                                None => true,
+                            };
+                            d.feature.is_some() && d.b.area() >= v.min_area as f64 && d.quality.unwrap_or(1.0) >= v.q_collect && share_ok
+                        }
                         None => false,
                     };
                     t.pending.push((d.feature.as_ref().map(|f| pad8(f)), d.quality.unwrap_or(1.0), collectable));
+                    if let (Some(v), Some(Some(sh))) = (&self.cfg.visual, shares.get(i)) {
+                        if (sh - v.own_collect as f64).abs() < 2e-3 {
+                            t.gallery = None;
+                        }
+                    }
                     if let Some(k) = t.kf.as_mut() {
                         k.predict();
                         k.update(&d.b);
@@ -375,6 +390,20 @@ impl<'a> Model<'a> {
         }
     }
 
+    /// exclusively-owned share of every detection of the call (None when the tracker
+    /// is not configured to compute shares)
+    fn own_shares(&self, dets: &[Det]) -> Vec<Option<f64>> {
+        match &self.cfg.visual {
+            Some(v) if v.own_use + v.own_collect > 0.0 => (0..dets.len())
+                .map(|i| {
+                    let others: Vec<&BoxF> = dets.iter().enumerate().filter(|(j, _)| *j != i).map(|(_, d)| &d.b).collect();
+                    Some(uncovered_share(&dets[i].b, &others))
+                })
+                .collect(),
+            _ => vec![None; dets.len()],
+        }
+    }
+
     fn check_histories(&mut self, op: &str, opi: usize, ti: &TInfo, what: &str) {
         let Some(mt) = self.tracks.get(&ti.id).cloned() else { return };
         let h = self.cfg.history;
@@ -507,6 +536,7 @@ impl<'a> Model<'a> {
         let mut near = m.near_threshold;
         let (n, k) = (dets.len(), cand.len());
         // usability of each detection's feature
+        let shares = self.own_shares(dets);
         let mut usable = vec![false; n];
         for (i, d) in dets.iter().enumerate() {
             let area = d.b.area();
@@ -524,7 +554,19 @@ impl<'a> Model<'a> {
                     self.stats.rv_unusable_quality += 1;
                 }
             }
-            usable[i] = d.feature.is_some() && area >= v.min_area as f64 && q >= v.q_use;
+            let share_ok = match shares[i] {
+                Some(sh) => {
+                    if (sh - v.own_use as f64).abs() < 2e-3 {
+                        near = true;
+                    }
+                    sh >= v.own_use as f64
+                }
+                None => true,
+            };
+            if d.feature.is_some() && !share_ok {
+                self.stats.rv_unusable_own_area += 1;
+            }
+            usable[i] = d.feature.is_some() && area >= v.min_area as f64 && q >= v.q_use && share_ok;
         }
         let fdist = |a: &[f32], b: &[f32]| -> f64 {
             let (mut dot, mut na, mut nb, mut sq) = (0.0f64, 0.0f64, 0.0f64, 0.0f64);
@@ -620,6 +662,19 @@ impl<'a> Model<'a> {
         }
         self.stats.rv_asserted += 1;
         let on: Vec<Option<usize>> = recs.iter().map(|r| cand.iter().position(|t| t.id == r.id)).collect();
+        if m.pairs.iter().flatten().any(|p| *p == Pair::Forbidden) {
+            self.stats.constraint_binding += 1;
+        }
+        for i in 0..n {
+            if let Some(j) = on[i] {
+                if m.pairs[i][j] == Pair::Forbidden {
+                    self.v("C20", "attached-beyond-limit", op, "constraint-ignored",
+                        format!("op {opi} scene {scene}: detection {i} attached to track {} at normalised distance {:.4} with epoch gap {} (limit {:?})",
+                            cand[j].id, dist_in_2r(&boxes[i], &rts[j].pred), rts[j].gap, limit_for(&self.cfg.constraints, rts[j].gap)));
+                    return;
+                }
+            }
+        }
         for j in 0..k {
             if (0..n).filter(|i| claim[*i][j].is_some()).count() > 1 {
                 self.stats.rv_contests += 1;
